@@ -49,11 +49,20 @@ CLAIMS = {
         "Timestamps identify entries; the ignoredups rule is read leniently (nearest earlier command, also across clear); line-level atomicity in the scheduler; threading.Condition is replaced by a cooperative equivalent; SQLite and items() compare modulo trailing whitespace.",
         "DESIGN.md §3 C12",
     ),
+    "C13": (
+        "fault_enumeration",
+        "crash-point / torn-write / failing-call enumeration over the recorded file-operation log (JSON, Python level) and over every mutating syscall via strace fault injection (SQLite)",
+        "crashx",
+        "For every history-rewriting operation of the JSON back end (background flush, exit flush, delete, erasedups, stale-lock unlock) from several pre-states, the file-system operation log is recorded and then every crash point, every torn-write length (quick: 1, n/2, n-1; thorough: all) and every single failing call is executed in a forked child; each history file must afterwards load and equal its complete old or new version. For SQLite every mutating syscall on the database/journal is killed-at and failed (EIO) with strace injection and the table must be the complete old or new one with integrity_check ok.",
+        "Process-kill model (no lost page cache); CPython's real io stack decides what reaches the kernel; time.time constant inside the module; strace/ptrace must be permitted (otherwise the SQLite part is skipped and says so).",
+        "DESIGN.md §3 C13",
+    ),
 }
 
 NOT_YET = "check not built yet (work in progress in this round; see DESIGN.md §3 for the planned exploration)"
 
 ENGINES = [
+    {"name": "crashx", "path": "xv/crashx.py", "serves_properties": ["C13"], "kind_free_text": "records the file-operation log of a write history through shims bound into the module under test, then enumerates every crash point, torn write and failing call in forked children; strace syscall injection for libsqlite3"},
     {"name": "pysched", "path": "xv/pysched.py", "serves_properties": ["C11", "C12"], "kind_free_text": "stateless preemption-bounded exploration of real CPython threads: baton scheduler, line-event scheduling points in named functions, cooperative Lock/Condition/sleep/join shims, DFS over choice prefixes with replay-divergence detection"},
     {"name": "seqx", "path": "xv/seqx.py", "serves_properties": ["C11", "C12", "C16", "C20"], "kind_free_text": "explicit-state breadth-first search whose transitions call the real entry points on a freshly replayed implementation; canonical state hashing; lock-step reference"},
     {"name": "gramx", "path": "xv/", "serves_properties": ["C15"], "kind_free_text": "bounded-exhaustive enumeration of structured inputs run through the real implementation, compared with a reference"},
